@@ -237,7 +237,7 @@ def classify(prop, result, repo):
             item = {"file": rel, "line": ln, "col": col, "text": text, "end_line": le}
             hit = sorted(x for x in ch if ln <= x <= le)
             body = u[4] if len(u) > 4 else text
-            if hit and inert(body):
+            if hit and (inert(body) or text.lstrip().startswith("debug_assert")):   # debug assertions are compiled out of the release build
                 item["inert"] = True       # a bare `return;` / `continue;` / `unreachable!` / `panic!` arm: listed, not judged
                 known.append(item)
             elif hit:
